@@ -823,12 +823,12 @@ Proof. intros H1 H2. unfold add_expr_text, add_expr. by rewrite H1, H2. Qed.
 
 (** [add_expr(to_expr(u)) = u] on the raw text, character-level lexer *)
 Theorem to_expr_roundtrip_raw s u :
-  Inv s → valid s u → last_len s = None →
+  Inv s → valid s u → last_len s = None → max_nodes s = None →
   ∃ txt, to_expr u s = (Ok txt, s) ∧
     ∀ r s', add_expr_text lex_alias reserved_words lex_rules code_prec txt s = (r, s') →
-      r = Ok u ∧ Inv s' ∧ extends s s' ∧ last_len s' = None.
+      r = Ok u ∧ Inv s' ∧ extends s s' ∧ last_len s' = None ∧ max_nodes s' = None.
 Proof.
-  intros HI Hu Hoff.
+  intros HI Hu Hoff Hmx.
   destruct (to_expr_ast_spec (S (S (nvars s))) s u HI Hu) as (a&Ea&Hok&Hsem); [lia|].
   pose proof (to_expr_rec_text (S (S (nvars s))) u s) as Ht. rewrite Ea in Ht.
   destruct Ht as [Hshape Ht].
@@ -839,8 +839,8 @@ Proof.
   pose proof (parse_te_tokens a (te_shape_wf a Hshape)) as Hparse.
   intros r s' Hrun.
   rewrite (add_expr_text_eq _ _ _ _ _ _ _ s (lexc_expr_text a Hshape) Hlex) in Hrun.
-  destruct (add_expr_sem _ _ _ _ _ a s r s' HI Hoff Hlex Hparse Hok Hrun)
-    as (x&->&HI'&He&Hoff'&Hx&HD).
+  destruct (add_expr_sem _ _ _ _ _ a s r s' HI Hoff Hmx Hlex Hparse Hok Hrun)
+    as (x&->&HI'&He&Hoff'&Hmx'&Hx&HD).
   split; [|done]. f_equal.
   apply (canonical_names s' HI'); [done|by apply (valid_extends s s')|].
   intros ρ. rewrite HD, Hsem. symmetry. by apply denv_extends.
@@ -848,25 +848,26 @@ Qed.
 
 (** the semantic theorem on raw text *)
 Theorem add_expr_text_sem text ts a s r s' :
-  Inv s → last_len s = None →
+  Inv s → last_len s = None → max_nodes s = None →
   lexc lex_alias reserved_words lex_rules text = Some ts → parse code_prec ts = Some a →
   ok_ast s a →
   add_expr_text lex_alias reserved_words lex_rules code_prec text s = (r, s') →
-  ∃ u, r = Ok u ∧ Inv s' ∧ extends s s' ∧ last_len s' = None ∧ valid s' u ∧
+  ∃ u, r = Ok u ∧ Inv s' ∧ extends s s' ∧ last_len s' = None ∧
+       max_nodes s' = None ∧ valid s' u ∧
        ∀ ρ, denv s' u ρ = asem s a ρ.
 Proof.
-  intros HI Hoff Hlex Hparse Hok Hrun. unfold add_expr_text in Hrun.
+  intros HI Hoff Hmx Hlex Hparse Hok Hrun. unfold add_expr_text in Hrun.
   apply try_to_reorder_inert in Hrun as (r1&s1&Hrun&Hcase).
   set (s0 := s <| rctx := true |>) in *.
   rewrite Hlex in Hrun. cbn [of_opt] in Hrun.
   rewrite (bind_ok _ _ s0 ts s0) in Hrun by done.
   rewrite Hparse in Hrun. cbn [of_opt] in Hrun.
   rewrite (bind_ok _ _ s0 a s0) in Hrun by done.
-  apply (eval_ast_sem_gen a s s0) in Hrun as (u&->&HI1&He1&Hoff1&Hu&HD);
-    [|done|done|by apply Inv_rctx|done|done].
+  apply (eval_ast_sem_gen a s s0) in Hrun as (u&->&HI1&He1&Hoff1&Hmx1&Hu&HD);
+    [|done|done|by apply Inv_rctx|done|done|done].
   destruct Hcase as [[? _]|[-> ->]]; [done|].
   exists u. split; [done|]. split; [by apply Inv_rctx|]. split; [done|]. split; [done|].
-  split; [done|]. intros ρ. rewrite <- HD. unfold denv. by rewrite D_rctx.
+  split; [done|]. split; [done|]. intros ρ. rewrite <- HD. unfold denv. by rewrite D_rctx.
 Qed.
 
 (** ** one insertion point: the single blank between two tokens replaced by
